@@ -610,6 +610,29 @@ func c04JSONValue(d *json.Decoder) (*c04J, error) {
 	return nil, fmt.Errorf("unexpected token %v", tok)
 }
 
+// bigNumber: a number literal of magnitude 2^52 or more somewhere in the tree ("" if none)
+func (j *c04J) bigNumber() string {
+	switch j.K {
+	case '#':
+		if n, ok := new(big.Int).SetString(j.S, 10); ok && n.CmpAbs(c04Pow(52)) >= 0 {
+			return j.S
+		}
+	case 'a':
+		for _, v := range j.Arr {
+			if s := v.bigNumber(); s != "" {
+				return s
+			}
+		}
+	case 'o':
+		for _, v := range j.Vals {
+			if s := v.bigNumber(); s != "" {
+				return s
+			}
+		}
+	}
+	return ""
+}
+
 func (j *c04J) coq() string {
 	switch j.K {
 	case 'n':
@@ -1178,6 +1201,11 @@ func c04CaseA(c *h.Ctx, t *c04Tables, it *c04Item, model bool) {
 			c.Fail("C04/"+format+"/output-not-well-formed:"+it.kindPath(), fmt.Sprintf("%s output is rejected by the independent parser: %q", format, c04Trunc(doc)), cj)
 			continue
 		}
+		if format == "json" {
+			if lit := jt.bigNumber(); lit != "" {
+				c.Fail("C04/json/number-not-exact-in-javascript", fmt.Sprintf("JSON output carries the number %s: 2^52 or more in magnitude must be written as a hex string", lit), cj)
+			}
+		}
 		// (2) typed re-read and (3) Unmarshal into ttlv.Value, both re-encoded to binary
 		o1 := c04RereadDoc(format, doc, it)
 		o2 := c04Skip
@@ -1345,7 +1373,8 @@ func driveC04(c *h.Ctx) error {
 	nm := c.Pick(300, 4000)
 	for i := 0; i < nm; i++ {
 		g.r = c.Rng.Fork(uint64(500000 + i))
-		c04CaseSkip(c, g, g.tree(4, i%2 == 0), i)
+		it := g.tree(4, i%2 == 0)
+		c04CaseSkip(c, g, it, g.r.U64()>>12)
 	}
 	// (c) typed KMIP messages, (d) OASIS vectors (oracle on the implementation only)
 	c04Messages(c, g)
@@ -1399,8 +1428,7 @@ func c04Replay(c *h.Ctx, g *c04Gen, t *c04Tables) error {
 		if err := json.Unmarshal(b, &it); err != nil {
 			return err
 		}
-		g.r = h.NewRand(uint64(m["rng"].(float64)))
-		c04CaseSkip(c, g, &it, -1)
+		c04CaseSkip(c, g, &it, uint64(m["rng"].(float64)))
 	case "c":
 		if err := c04ReplayMessage(c, m); err != nil {
 			return err
@@ -1726,8 +1754,7 @@ func c04Prune(r *h.Rand, it *c04Item) *c04Item {
 // c04CaseSkip: the document of the full item, read with the script of the pruned item (every
 // Struct callback stops early and the reader skips the rest), must give exactly the pruned item;
 // and a child renamed to an unknown tag ends the generic ttlv.Value field loop there.
-func c04CaseSkip(c *h.Ctx, g *c04Gen, it *c04Item, idx int) {
-	seed := g.r.U64() >> 12
+func c04CaseSkip(c *h.Ctx, g *c04Gen, it *c04Item, seed uint64) {
 	pr := c04Prune(h.NewRand(seed), it)
 	want, pan := c04Wire(pr)
 	if pan != nil {
